@@ -150,10 +150,11 @@ theorem invSi_step (s : Si) (op : SiOp) (h : InvSi s) : InvSi (stepSi true s op)
       | true => exact (evolveAll_spec c keys _ (by rw [i2]; exact hc) i1).1
       | false => exact i1
   | evolve keys =>
+    obtain ⟨i1, i2, _, _, _⟩ := initUseMask_spec s true h
     unfold stepSi
     cases hc : s.circ with
     | none => exact h
-    | some c => exact (evolveAll_spec c keys s hc h).1
+    | some c => exact (evolveAll_spec c keys _ (by rw [i2]; exact hc) i1).1
 
 theorem siAnswer_current (s : Si) (c : Nat) (keys : List SiKey)
     (parts : List ((Nat × Nat) × SiGhost))
@@ -182,10 +183,14 @@ theorem evolveAll_answer (s : Si) (c : Nat) (keys : List SiKey) (hc : s.circ = s
 
 theorem evolveSi_spec (s : Si) (keys : List SiKey) (h : InvSi s) :
     (stepSi true s (.evolve keys)).2 = specSi s.config keys := by
+  obtain ⟨i1, i2, i3, _, i5⟩ := initUseMask_spec s true h
   unfold stepSi specSi Si.config
   cases hc : s.circ with
   | none => rfl
-  | some c => exact evolveAll_answer s c keys hc h
+  | some c =>
+    have := evolveAll_answer _ c keys (by rw [i2]; exact hc) i1
+    rw [i3, i5] at this
+    exact this
 
 theorem probsSvdSi_spec (s : Si) (pnr generic : Bool) (keys : List SiKey) (h : InvSi s) :
     (stepSi true s (.probsSvd pnr generic keys)).2 = specSi s.config keys := by
